@@ -45,7 +45,7 @@ type FSPlan struct {
 	Explicit bool   `json:"explicit_tmp,omitempty"` // caller-specified temp dir
 	Readers  int    `json:"readers"`
 	Mode     int    `json:"mode,omitempty"` // requested mode index
-	Net      []int  `json:"net,omitempty"`  // fetch: behaviour of the download transport per attempt (0 ok, 1 truncated body, 2 error mid-body, 3 status 500, 4 body longer than announced)
+	Net      []int  `json:"net,omitempty"`  // fetch: behaviour of the download transport per attempt (0 ok, 1 truncated body, 2 error mid-body, 3 status 500, 4 body longer than announced, 5 unknown length and connection dropped half way)
 }
 
 var sizes = []int{0, 1, 4096, 200000, 3 << 20}
@@ -64,7 +64,7 @@ func (H) Generate(prop string, rng *rand.Rand, tier string) any {
 	if p.Prim == "fetch" {
 		n := 1 + rng.IntN(3)
 		for i := 0; i < n; i++ {
-			p.Net = append(p.Net, rng.IntN(5))
+			p.Net = append(p.Net, rng.IntN(6))
 		}
 		if rng.IntN(2) == 0 {
 			p.Net = append(p.Net, 0)
@@ -436,11 +436,16 @@ func readState(p *FSPlan, e *fsEnv) (string, bool) {
 		})
 		return sb.String(), true
 	}
+	fi, serr := os.Stat(e.dest)
 	b, err := os.ReadFile(e.dest)
-	if err != nil {
+	if err != nil || serr != nil {
 		return "", false
 	}
-	return fmt.Sprintf("%d:%x", len(b), simpleHash(b)), true
+	if p.Prim == "fetch" {
+		// the download path sets the final mode after the rename (documented TODO in the source): content only
+		return fmt.Sprintf("%d:%x", len(b), simpleHash(b)), true
+	}
+	return fmt.Sprintf("%v:%d:%x", fi.Mode().Perm(), len(b), simpleHash(b)), true
 }
 
 func simpleHash(b []byte) uint64 {
